@@ -17,9 +17,10 @@
               "k3_p_f_e":  ["-DV_K=3", "-DV_N0=1", "-DV_E00=EL_PACKED", "-DV_E01=0", "-DV_N1=1", "-DV_E10=EL_FOO"],
               "k2_p_open": ["-DV_K=2", "-DV_N0=1", "-DV_E00=EL_PACKED", "-DV_E01=0", "-DV_N1=1", "-DV_E10=EL_FOO_OPEN"]},
  "canary_variant": "k2_f_up",
+ "cbmc_flags": ["--sat-solver", "cadical"],
  "kind": "bounded",
  "bound": "11 shapes (token kinds of the lists constant per CBMC run; closing tokens, terminator, result object symbolic) of 0..3 specifiers `__attribute__ (( list ))` in a row; list of 0..2 elements, each a comma or one of packed, __packed__, foo, foo(1,1), foo((1)), foo(1 <end of input>; closed by `))`, by a single `)`, or cut off by end of input; followed by `;` or an identifier.  Excluded here (FAILS, see ATTR.gnuattr.syntax): two attributes without a comma between them",
- "timeout": 200, "replay": false,
+ "timeout": 600, "replay": false,
  "assumes": ["next/peek/consume/expect are token-script stand-ins with pp.c's meaning (attr_common2.h); `allowed` contains packed"]
 }
 */
